@@ -24,7 +24,7 @@ class UnitOutcome:
         self.functions = []; self.items = []; self.trusted = []; self.cmds = []
         self.smt_ms = 0; self.wall_s = 0.0; self.round_trip = None
         self.canaries = {}; self.mutants = []; self.samples = []; self.gen_info = {}
-        self.clauses_total = 0; self.clauses_for_property = 0; self.verus_text = None; self.known_clauses = []; self.degraded = []
+        self.clauses_total = 0; self.clauses_for_property = 0; self.verus_text = None; self.known_clauses = []; self.degraded = []; self.standing = None
 
 def clause_index(B):
     """label -> [line numbers]; distinct labels (per item) counted once."""
@@ -281,6 +281,26 @@ def run_property(verif, pid, tier, seed):
                     note = "no failing input found by the witness search; the obligation was discharged on the unchanged tree and now fails"
                 path = write_replay(verif, pid, nm, O, d, witness, note)
                 lines.append(f"VIOLATION property={pid} replay={path}" + ("" if confirmed else " no-failing-input-found"))
+    # fallback for units the verifier could not decide on this tree (lost anchor, construct outside the shims, …): the unit's
+    # standing witness set is replayed on the real code. A failing input there is a real violation and is reported as one
+    # (the replay file says that the unit itself was undecided); no failing input leaves the unit UNDECIDED (exit 2).
+    for O in outcomes:
+        if not O.undecided or any(o is O for o, _, _ in viol): continue
+        wmod = load_witness(verif, O.name)
+        if wmod is None or not hasattr(wmod, "standing"): continue
+        try:
+            ctx = {"verif": verif, "repo": REPO, "replay_tool": lambda a, **kw: replay_tool(verif, a, **kw),
+                   "companions": extra, "seed": seed, "tier": tier, "cache": {}}
+            w = wmod.standing(ctx, f"{O.name}.undecided", None)
+        except Exception as e:
+            w = {"error": f"{type(e).__name__}: {e}"}
+        O.standing = w
+        if w and w.get("violates"):
+            class _D:  # minimal diagnostic stand-in for the replay file
+                item = None; message = "unit undecided: " + O.undecided; spans = []; rendered = getattr(O, "undecided_detail", "") or O.undecided
+            path = write_replay(verif, pid, f"{O.name}.undecided", O, _D, w,
+                                "the verifier could not decide this unit on this tree (" + O.undecided[:200] + "); the unit's standing witness set was replayed on the real code and found a failing input")
+            lines.append(f"VIOLATION property={pid} replay={path}")
     # evidence
     ev = {
         "property_id": pid, "tier": tier, "seed": seed, "level": "proof",
@@ -299,7 +319,7 @@ def run_property(verif, pid, tier, seed):
                 "functions_under_contract": O.items, "round_trip_ok": O.round_trip,
                 "solver": O.functions, "smt_ms": O.smt_ms, "wall_s": round(O.wall_s, 2),
                 "canaries_failed_as_expected": O.canaries, "mutants": O.mutants,
-                "degraded_lost_anchors": O.degraded, "failed_obligations": [nm for nm, _ in O.failed], "failed_other_properties": O.other_failed,
+                "degraded_lost_anchors": O.degraded, "standing_witness_replay_when_undecided": O.standing, "failed_obligations": [nm for nm, _ in O.failed], "failed_other_properties": O.other_failed,
                 "known_finding_obligations_excluded_from_counts": O.known_clauses,
                 "generated": O.gen_info, "checker_cmds": O.cmds,
             } for O in outcomes],
